@@ -29,7 +29,7 @@ OPENS = ["ImathVerif", "ImathVerif.C13", "ImathVerif.BoxTransform"]
 
 SHAPES = ["Interval", "Box2", "Box3", "Box4"]
 PER_SHAPE = ["default_contains_nothing", "makeEmpty_contains_nothing", "makeInfinite_contains_all", "intersectsPoint_iff",
-             "intersectsBox_symm", "intersectsBox_of_common_point", "intersectsBox_iff_partial", "intersectsBox_wrong_iff",
+             "intersectsBox_symm", "intersectsBox_of_common_point", "intersectsBox_iff_axes", "intersectsBox_iff_partial", "intersectsBox_wrong_iff",
              "intersectsBox_iff_FALSE", "extendByPoint", "extendByBox", "extendByPoint_contains", "extendByBox_contains",
              "extendByPoint_least", "extendByBox_least", "extend_sequence_least", "extend_sequence_from", "isEmpty_iff",
              "hasVolume_iff", "isInfinite_iff", "eq_iff", "ne_iff", "size", "center", "center_mem"]
